@@ -14,5 +14,7 @@ pub use cow::ArenaCow;
 #[cfg(all(not(doc), debug_assertions))]
 pub use debug::Arena;
 pub(crate) use pool::PoolSet;
+#[cfg(feature = "verif")]
+pub use pool::verif as pool_verif;
 pub use scratch::{ScratchArena, init, scratch_arena};
 pub use string::ArenaString;
